@@ -58,9 +58,15 @@ impl<C: CellType> BcInterpreter<C> {
                 if let Instr::BrZ(_, _) | Instr::BrNZ(_, _) = inst {
                     emit_limit(&mut insts, 1);
                 }
-                if let Instr::Scan(_, shift) = inst {
+                if let Instr::Scan(cond, shift) = inst {
                     if shift == 0 {
+                        // A stationary scan never terminates if the cell is not
+                        // zero. Only then is the whole budget consumed.
+                        let start = insts.len();
+                        emit(&mut insts, Instr::BrZ(cond, 0), safe);
                         emit_limit(&mut insts, usize::MAX);
+                        let offset = (insts.len() - start) as isize;
+                        adjust_branch(&mut insts[start..], offset);
                     }
                 }
             }
